@@ -504,9 +504,10 @@ def native_checks(tier):
 
 def contracts(tier):
     from pyvc.interp import PyRaise  # noqa
-    from . import c08, traversals, writers
+    from . import c08, traversals, writers, rebuild
     cs = list(c08.scanner_contracts(tier)) + traversals.contracts(tier) + \
-        writers.contracts(tier)
+        writers.contracts(tier) + rebuild.contracts(tier) + \
+        rebuild.reduplicate_contracts(tier)
     for th in ('arithmetic', 'bv', 'datatypes', 'fp', 'strings'):
         cs.append(
             Contract(f'C04/mutators_{th}.is_relevant',
